@@ -32,6 +32,7 @@ mod checkpoint;
 mod manifest_io;
 mod gossip_queue;
 mod zset_container;
+mod ckpt_recovery;
 use std::panic;
 
 pub struct Found {
@@ -101,6 +102,7 @@ fn main() {
         "gossip_queue" => gossip_queue::search(&pid, &oid, seed),
         "zset_container" => zset_container::search(&pid, &oid, seed),
         "recovery_wal" | "recovered_apply" | "recover_segments" => recovery::search(&pid, &oid, seed),
+        "ckpt_recovery" => ckpt_recovery::search(&pid, &oid, seed),
         _ => None,
     };
     match res {
